@@ -436,6 +436,14 @@ func (w *Writer) Write(v interface{}) *Writer {
 		return w
 	}
 
+	// 基础类型的 nil 指针（如 (*int32)(nil)）在下面的类型分支中会被直接解引用而 panic；*[]byte 的 nil 有明确语义（长度 0），保持不变
+	if _, isBytesPtr := v.(*[]byte); !isBytesPtr {
+		if rv := reflect.ValueOf(v); rv.Kind() == reflect.Ptr && rv.IsNil() {
+			w.err = fmt.Errorf("cannot write nil pointer: %T", v)
+			return w
+		}
+	}
+
 	switch val := v.(type) {
 	case *byte:
 		w.writeByte(*val)
